@@ -180,10 +180,14 @@ class SymArr:
         for k, n in zip(key, self.shape):
             if isinstance(k, slice):
                 sel.append((list(range(n))[k], True))
-            elif isinstance(k, SymArr):
-                sel.append(([_as_int(v, n) for v in k.flat], True))
-            elif isinstance(k, (list, tuple, range)):
-                sel.append(([_as_int(v, n) for v in k], True))
+            elif isinstance(k, SymArr) or isinstance(k, (list, tuple, range)):
+                vals = list(k.flat) if isinstance(k, SymArr) else list(k)
+                if vals and all(isinstance(v, bool) for v in vals):
+                    if len(vals) != n:
+                        raise IndexError("boolean index did not match the axis")
+                    sel.append(([i for i, b in enumerate(vals) if b], True))
+                else:
+                    sel.append(([_as_int(v, n) for v in vals], True))
             else:
                 sel.append(([_as_int(k, n)], False))
         return sel
@@ -368,6 +372,18 @@ def append(a, b):
     return SymArr((a.size + b.size,), list(a.flat) + list(b.flat))
 
 
+def insert(a, idx, values, axis=None):
+    a = SymArr.of(a)
+    if axis is not None or a.ndim != 1 or isinstance(idx, bool) or not isinstance(idx, int):
+        raise A.Undecided("np.insert outside the modelled subset (1-d array, integer position)")
+    vals = list(SymArr.of(values).flat) if isinstance(values, (list, tuple, SymArr)) else [values]
+    k = idx + a.size if idx < 0 else idx
+    if not 0 <= k <= a.size:
+        raise IndexError("index %d is out of bounds for axis 0 with size %d" % (idx, a.size))
+    flat = list(a.flat)
+    return SymArr((a.size + len(vals),), flat[:k] + vals + flat[k:])
+
+
 def bmat(blocks):
     rows = []
     for brow in blocks:
@@ -478,6 +494,8 @@ def np_summaries():
         "np.vstack": lambda seq: bmat([[_as2d(x)] for x in seq]), "np.stack": lambda seq, axis=0: SymArr.of([SymArr.of(x).tolist() for x in seq]),
         "np.empty_like": empty_like, "np.zeros_like": empty_like, "np.empty": lambda s_, *a, **k: SymArr.zeros(s_),
         "np.ones_like": lambda a, **k: SymArr.ones(SymArr.of(a).shape), "np.diag": diag, "np.outer": outer,
+        "np.isin": lambda a, b: [(_as_int(x, 10 ** 9) if not isinstance(x, int) else x) in [(_as_int(y, 10 ** 9) if not isinstance(y, int) else y) for y in (b.flat if isinstance(b, SymArr) else (list(b) if isinstance(b, (list, tuple, range)) else [b]))]
+                                 for x in (a.flat if isinstance(a, SymArr) else list(a))],
         "np.multiply": lambda a, b: SymArr.of(a) * b, "np.size": lambda a, *x: SymArr.of(a).size, "np.shape": lambda a: SymArr.of(a).shape,
         "np.squeeze": lambda a: SymArr(tuple(x for x in SymArr.of(a).shape if x != 1), SymArr.of(a).flat),
         "np.arange": lambda *a: SymArr.of(list(range(*a))), "np.atleast_1d": lambda a: SymArr.of(a) if SymArr.of(a).ndim else SymArr.of(a).reshape(1),
@@ -488,6 +506,7 @@ def np_summaries():
         "np.add": lambda a, b: SymArr.of(a) + b, "np.sum": lambda a, axis=None: SymArr.of(a).sum(axis),
         "scipy.sparse.kron": kron, "scipy.sparse.eye": lambda n, *a, **k: SymArr.eye(n), "scipy.linalg.block_diag": block_diag,
         "np.column_stack": lambda t: SymArr.of([SymArr.of(c).tolist() for c in t]).T,
+        "np.insert": insert,
     }
     d.update(d0)
     return d
